@@ -365,6 +365,7 @@ func Zoo() *SchemaDesc {
 	objField(sd, "Node", "thing", nil, Uni("Thing"), nid, NodeThing)
 	objField(sd, "Node", "things", nil, ListOf(Uni("Thing")), nid, NodeThings)
 	objField(sd, "Node", "item", nil, Obj("Item"), nid, NodeItem)
+	objField(sd, "Node", "bags", nil, ListOf(Obj("Bag")), nid, NodeBags)
 	sd.Types["Node"].KeyField = "id"
 
 	structField(sd, "Leaf", "id", Scalar("Int"), func(src interface{}) interface{} {
@@ -395,6 +396,28 @@ func Zoo() *SchemaDesc {
 	objField(sd, "Item", "b", nil, Scalar("String"), iid, ItemB)
 	objField(sd, "Item", "node", nil, Obj("Node"), iid, ItemNode)
 	objField(sd, "Item", "next", nil, Obj("Item"), iid, ItemNext)
+
+	bid := func(b *Bag) int64 { return b.A }
+	structField(sd, "Bag", "a", Scalar("Int"), func(src interface{}) interface{} {
+		switch v := src.(type) {
+		case *Bag:
+			return v.A
+		case Bag:
+			return v.A
+		}
+		panic("bad Bag source")
+	})
+	structField(sd, "Bag", "tags", ListOf(Scalar("String")), func(src interface{}) interface{} {
+		switch v := src.(type) {
+		case *Bag:
+			return v.Tags
+		case Bag:
+			return v.Tags
+		}
+		panic("bad Bag source")
+	})
+	objField(sd, "Bag", "total", nil, Scalar("Int"), bid, BagTotal)
+	objField(sd, "Bag", "node", nil, Obj("Node"), bid, BagNode)
 
 	u := sd.typ("Thing")
 	u.IsUnion = true
@@ -468,12 +491,21 @@ func RegisterInto(s *schemabuilder.Schema, sd *SchemaDesc, cfg Config, env *Env)
 		"Leaf":  s.Object("Leaf", Leaf{}, leafOpts...),
 		"Item":  s.Object("Item", Item{}, itemOpts...),
 	}
+	types := []string{"Query", "Node", "Leaf", "Item"}
+	if cfg.Service == "" {
+		// Bag (a non-comparable value object) is not federated
+		objs["Bag"] = s.Object("Bag", Bag{})
+		types = append(types, "Bag")
+	}
 	objs["Leaf"].Key("id")
-	for _, tn := range []string{"Query", "Node", "Leaf", "Item"} {
+	for _, tn := range types {
 		t := sd.Types[tn]
 		for _, fn := range t.Order {
 			f := t.Fields[fn]
 			if f.StructField {
+				continue
+			}
+			if cfg.Service != "" && f.Ret.Base().Name == "Bag" {
 				continue
 			}
 			if cfg.Include != nil && !cfg.Include(tn, fn) {
